@@ -7,8 +7,10 @@
 //   enq P n : tasks enqueued into an arena nobody waits in must run
 #include "common.h"
 #include <random>
+#include <algorithm>
 #include "tbb/concurrent_monitor.h"
 #include "oneapi/tbb/task_arena.h"
+#include "oneapi/tbb/concurrent_queue.h"
 #include "oneapi/tbb/global_control.h"
 using namespace vh;
 using namespace tbb::detail::r1;
@@ -111,10 +113,34 @@ static int do_enq(int P, int n) {
     return 0;
 }
 
+// blocked producers of a full concurrent_bounded_queue, some of them aborted (their tickets become holes), later producers waiting
+// behind the holes: every pop that frees a slot must wake the producer waiting for it
+static int do_bq(int cap, int nA, int nB, unsigned seed) {
+    Watchdog wd(25.0); Out o; wd.arm(&o);
+    tbb::concurrent_bounded_queue<int> q; q.set_capacity(cap);
+    for (int i = 0; i < cap; ++i) q.push(i);
+    auto wait_size = [&](long want) { for (int k = 0; k < 20000 && (long)q.size() < want; ++k) std::this_thread::sleep_for(std::chrono::microseconds(100)); std::this_thread::sleep_for(std::chrono::milliseconds(2)); };
+    std::atomic<int> aborted{0}, finished{0};
+    std::vector<std::thread> A, B;
+    for (int i = 0; i < nA; ++i) { A.emplace_back([&, i] { try { q.push(1000 + i); finished++; } catch (tbb::user_abort&) { aborted++; } }); wait_size(cap + 1 + i); }
+    q.abort();
+    for (auto& t : A) t.join();
+    for (int i = 0; i < nB; ++i) { B.emplace_back([&, i] { try { q.push(2000 + i); finished++; } catch (tbb::user_abort&) { aborted++; } }); wait_size(cap + 1 + i); }
+    std::vector<int> got;
+    for (int k = 0; k < cap + nB; ++k) { int v = -1; q.pop(v); got.push_back(v); std::this_thread::sleep_for(std::chrono::milliseconds(1 + seed % 3)); }
+    for (auto& t : B) t.join();          // a producer that is never woken keeps the watchdog running
+    wd.disarm();
+    long bad = 0; for (int i = 0; i < cap; ++i) if (got[i] != i) bad++;
+    std::vector<int> rest(got.begin() + cap, got.end()); std::sort(rest.begin(), rest.end()); for (int i = 0; i < nB; ++i) if (rest[i] != 2000 + i) bad++;
+    std::printf("BADITEMS %ld ABORTED %d\n", bad, aborted.load() - nA);
+    return 0;
+}
+
 int main(int argc, char** argv) {
     std::string mode = argc > 1 ? argv[1] : "";
     if (mode == "seq") return do_seq();
     if (mode == "mt") return do_mt(atoi(argv[2]), (unsigned)atoi(argv[3]), atoi(argv[4]));
     if (mode == "enq") return do_enq(atoi(argv[2]), atoi(argv[3]));
+    if (mode == "bq") return do_bq(atoi(argv[2]), atoi(argv[3]), atoi(argv[4]), (unsigned)atoi(argv[5]));
     return 2;
 }
